@@ -324,7 +324,7 @@ partial def loop (hin : IO.FS.Stream) (hout : IO.FS.Stream) (gw : Option (Resgat
     let flat := ws.getD 5 "0" == "1"
     let hauth := ws.getD 6 "0" == "1"
     hout.putStrLn "ok"
-    loop hin hout (some ({ refThrottle := ref, resetThrottle := rst, ord := ord, flat := flat, hauth := hauth }, snap))
+    loop hin hout (some ({ refThrottle := ref, resetThrottle := rst, ord := ord % 36, sched := ord / 36, flat := flat, hauth := hauth }, snap))
   else if l == "gw-end" then
     hout.putStrLn "ok"
     loop hin hout none
